@@ -104,7 +104,7 @@ func (g *opGen) selSet(parent string, depth, fdepth int, root bool) string {
 		}
 		c := g.draw(100, "selkind")
 		switch {
-		case c < 8 || (isUnion && c < 30):
+		case c < 7 || (isUnion && c < 14):
 			g.nodes++
 			g.feats["typename"] = true
 			items = append(items, g.key("__typename"))
@@ -172,6 +172,18 @@ func (g *opGen) pickKind(depth int) int {
 func (g *opGen) fragment(parent string, depth, fdepth int) string {
 	conds := g.condsFor(parent)
 	cond := conds[g.draw(len(conds), "cond")]
+	if g.draw(3, "preferobj") != 0 {
+		// mostly fragments on object types: they carry fields
+		var objs []string
+		for _, c := range conds {
+			if contains(g.f.Objs, c) {
+				objs = append(objs, c)
+			}
+		}
+		if len(objs) > 0 {
+			cond = objs[g.draw(len(objs), "objcond")]
+		}
+	}
 	g.nodes++
 	if g.draw(10, "named") < 3 {
 		g.feats["named-fragment"] = true
